@@ -131,6 +131,13 @@ fn operations(byte_len: usize) -> Vec<(String, Box<dyn Fn(&str) -> V>)> {
     op!("s[..]".to_string(), |s: &str| V::Str(s.to_string()));
     op!("s.chars().to_tuple()".to_string(), |s: &str| strs(s.graphemes(true)));
     op!("s.chars().to_string()".to_string(), |s: &str| V::Str(s.to_string()));
+    // consumption from the back end and from both ends
+    op!("s.chars().reversed().to_tuple()".to_string(), |s: &str| strs(s.graphemes(true).rev()));
+    op!("s.chars().reversed().skip(1).reversed().to_tuple()".to_string(), |s: &str| {
+        let g: Vec<&str> = s.graphemes(true).collect();
+        strs(g[..g.len().saturating_sub(1)].iter().copied())
+    });
+    op!("s.chars().skip(1).reversed().to_tuple()".to_string(), |s: &str| strs(s.graphemes(true).skip(1).collect::<Vec<_>>().into_iter().rev()));
     op!("s.char_indices().to_tuple()".to_string(), |s: &str| V::Seq(
         s.grapheme_indices(true).map(|(i, g)| V::Range(i as i64, (i + g.len()) as i64)).collect()
     ));
